@@ -133,3 +133,37 @@ package tcp
 //@   entry row init:  [] -> loop 0
 //@   loop 0 row apply: [call o(bind_x)] when fresh(x) -> continue
 //@   loop 0 row done:  [] when fresh(ret) -> exit
+
+// C06 / C03: constructor. Defaults (every TCP reply, all flag letters), then the options in order; the parser decodes
+// from Ethernet (IPv4 in VPN mode) into THIS method's own structs, skips unsupported layers, keeps panic recovery on
+//@ func WithPacketFilterFunc$1
+//@   props C03
+//@   modifies s.pktFilter
+//@   ensures s.pktFilter == pktFilter
+//@ func WithPacketFlagsFunc$1
+//@   props C03
+//@   modifies s.pktFlags
+//@   ensures s.pktFlags == pktFlags
+//@ func WithScanVPNmode$1
+//@   props C03 C17
+//@   modifies s.vpnMode
+//@   ensures s.vpnMode == vpnMode
+//@ func NewScanMethod
+//@   props C06 C03
+//@   observe o, gopacket.NewDecodingLayerParser
+//@   entry row init:  [] when sm.PacketSource == psrc && sm.scanType == scanType && sm.results == results && sm.pktFilter == TrueFilter && sm.pktFlags == AllFlags && !sm.vpnMode -> loop 0
+//@   loop 0 row apply: [call o(sm)] -> continue
+//@   loop 0 row eth:   [call gopacket.NewDecodingLayerParser(layers.LayerTypeEthernet, bind_ds) as (pr)]
+//@                       when !sm.vpnMode && len(ds) == 3 && isptr(ds[0], layers.Ethernet) && asptr(ds[0], layers.Ethernet) == addr(sm.rcvEth) && isptr(ds[1], layers.IPv4) && asptr(ds[1], layers.IPv4) == addr(sm.rcvIP)
+//@                         && isptr(ds[2], layers.TCP) && asptr(ds[2], layers.TCP) == addr(sm.rcvTCP) && sm.parser == pr && pr.IgnoreUnsupported && !pr.IgnorePanic && ret == sm -> exit
+//@   loop 0 row vpn:   [call gopacket.NewDecodingLayerParser(layers.LayerTypeIPv4, bind_ds) as (pr)]
+//@                       when sm.vpnMode && len(ds) == 3 && isptr(ds[0], layers.Ethernet) && asptr(ds[0], layers.Ethernet) == addr(sm.rcvEth) && isptr(ds[1], layers.IPv4) && asptr(ds[1], layers.IPv4) == addr(sm.rcvIP)
+//@                         && isptr(ds[2], layers.TCP) && asptr(ds[2], layers.TCP) == addr(sm.rcvTCP) && sm.parser == pr && pr.IgnoreUnsupported && !pr.IgnorePanic && ret == sm -> exit
+// the default reply predicate accepts every TCP segment; EmptyFlags prints nothing; AllFlags prints one letter per set
+// flag in the documented order s a f r p u e c n
+//@ func TrueFilter
+//@   props C03
+//@   ensures ret
+//@ func EmptyFlags
+//@   props C03
+//@   ensures ret == ""
